@@ -3,7 +3,7 @@ from __future__ import annotations
 
 import ast
 
-from ..grouping import GroupFacts
+from ..groupsx import GroupModel
 from . import grouprules as gr
 from . import nameres
 from .joinrules import determinism_of_function
@@ -27,7 +27,7 @@ def run(ctx) -> None:
     agg = {}
 
     def build():
-        agg["a"] = GroupFacts(ctx.prog, "aggregate")
+        agg["a"] = GroupModel(ctx.prog, "aggregate")
     ctx.section("extract", build)
     if "a" not in agg:
         return
@@ -37,7 +37,7 @@ def run(ctx) -> None:
     def part():
         probs = a.partition_problems()
         ctx.ob("a.partition", a.f, "partition", not probs, "rows partitioned in row order, groups in first-appearance order",
-               probs[0][1] if probs else a.part_loop, message="aggregate: " + "; ".join(p for p, _ in probs))
+               probs[0][1] if probs else a.f.node, message="aggregate: " + "; ".join(p for p, _ in probs))
     ctx.section("partition", part)
     ctx.section("keys", gr.key_columns, ctx, a, "b.key-columns")
     ctx.section("exit", gr.single_exit, ctx, a, "b.key-columns")
